@@ -13,7 +13,7 @@
 (* the antecedent of the selected property really held (non-vacuity).      *)
 (* <<"DONE", n>> is printed when the last event has been consumed.         *)
 (***************************************************************************)
-EXTENDS Squitterator, Country, Render, Dlog, Json, IOUtils, TLC, FiniteSets
+EXTENDS Squitterator, Country, Render, Dlog, RefreshRule, Json, IOUtils, TLC, FiniteSets
 
 Rec == ndJsonDeserialize(IOEnv.TRACE)
 Prop == IOEnv.PROP
@@ -538,6 +538,23 @@ CliStreamStep(ev) ==
       /\ Mark("C11", usable /\ m > 0, ev)
       /\ Mark("C16", usable /\ m > 0 /\ ev.args.f # <<>>, ev)
 
+(***************************** refresh schedule ***************************)
+\* ev: [u (s), t0 (ms: connection accepted = reader run started), jitter (ms), frames : seq of [t (ms sent), refreshed (BOOLEAN)]]
+\* times are the peer's; a frame sent at t is applied within [t, t + jitter]; the stamp is carried as an interval
+RefreshStep(ev) ==
+  LET J == ev.jitter
+      RECURSIVE Walk(_, _, _)
+      Walk(k, lo, hi) ==
+        IF k > Len(ev.frames) THEN TRUE
+        ELSE LET fr   == ev.frames[k]
+                 must == Due(fr.t, hi, ev.u)
+                 may  == Due(fr.t + J, lo, ev.u)
+             IN  /\ Chk("DRIFT", "refresh.schedule", (fr.refreshed => may) /\ (must => fr.refreshed), ev,
+                        IF fr.refreshed THEN "early." \o ToString(k) ELSE "withheld." \o ToString(k))
+                 /\ (IF fr.refreshed THEN Walk(k + 1, fr.t, fr.t + J) ELSE Walk(k + 1, lo, hi))
+  IN  /\ Walk(1, ev.t0 - J + ev.u * 1000, ev.t0 + J + ev.u * 1000)
+      /\ Mark("DRIFT", Len(ev.frames) > 0, ev)
+
 (***************************** -D downlink log ****************************)
 \* ev: [lines, args.f, log : logged lines as code points, code]
 DlogStep(ev) ==
@@ -739,6 +756,7 @@ Step(ev) ==
   ELSE IF ev.e = "country" THEN (IF CountryStep(ev) THEN st ELSE st)
   ELSE IF ev.e = "cli" THEN (IF CliStep(ev) THEN st ELSE st)
   ELSE IF ev.e = "dlog" THEN (IF DlogStep(ev) THEN st ELSE st)
+  ELSE IF ev.e = "refresh" THEN (IF RefreshStep(ev) THEN st ELSE st)
   ELSE IF ev.e = "clistream" THEN (IF CliStreamStep(ev) THEN st ELSE st)
   ELSE IF ev.e = "icaosweep" THEN (IF IcaoSweepStep(ev) THEN st ELSE st)
   ELSE IF ev.e = "burst" THEN (IF BurstStep(ev) THEN st ELSE st)
